@@ -146,6 +146,15 @@ func (verify *VerifyServerController) handlePairVerifyFinish(in util.Container) 
 	verify.step = VerifyStepFinishResponse
 
 	data := in.GetBytes(TagEncryptedData)
+	if len(data) < 16 {
+		// The encrypted data must at least contain the auth tag
+		out := util.NewTLV8Container()
+		out.SetByte(TagSequence, verify.step.Byte())
+		out.SetByte(TagErrCode, ErrCodeAuthenticationFailed.Byte()) // return error 2
+		verify.reset()
+		return out, nil
+	}
+
 	message := data[:(len(data) - 16)]
 	var mac [16]byte
 	copy(mac[:], data[len(message):]) // 16 byte (MAC)
@@ -159,7 +168,7 @@ func (verify *VerifyServerController) handlePairVerifyFinish(in util.Container) 
 
 	if err != nil {
 		verify.reset()
-		log.Info.Panic(err)
+		log.Info.Println(err)
 		out.SetByte(TagErrCode, ErrCodeAuthenticationFailed.Byte()) // return error 2
 	} else {
 		in, err := util.NewTLV8ContainerFromReader(bytes.NewBuffer(decryptedBytes))
